@@ -21,7 +21,7 @@ def gen_tasks(tier, seed):
     rng = random.Random(seed + 2)
     tasks = []
     nog = {"optimize_with_greedy": False}
-    for name, es in I.dag_graphs(tier, rng, quick_n=8):
+    for name, es in I.dag_graphs(tier, rng, quick_n=8, thorough_n5=80):
         fl = I.dag_flow(es, rng)
         if fl is None:
             continue
@@ -79,7 +79,7 @@ def gen_tasks(tier, seed):
             if any(G.in_degree(v) > 0 and G.out_degree(v) > 0 for v in G.nodes()):
                 tasks.append({**base, "cls": "kFlowDecomp", "edges": es, "node_flow": nf, "node_mode": True,
                               "kwargs": {"flow_attr_origin": "node", "weight_type": "int", "k": min(3, len(routes))}})
-    for name, es in I.digraphs(tier, rng, quick_n=8, thorough_n=60):
+    for name, es in I.digraphs(tier, rng, quick_n=8, thorough_n=120):
         wf = I.walk_flow(es, rng)
         if wf is None:
             continue
